@@ -9,6 +9,7 @@ on).  A process table decides kill(pid, 0).  The tape picks which process runs
 next at every call, whether a holder dies inside its critical section (leaving a
 stale link) and whether a stale link exists initially.
 """
+import copy
 import errno
 
 from twisted.python import lockfile
@@ -24,7 +25,7 @@ BATCH = 60
 COMPONENTS = {"real": ["twisted.python.lockfile.FilesystemLock.lock/unlock", "twisted.python.lockfile.isLocked"],
               "stub": ["symlink/readlink/remove/kill/getpid (in-memory link + process tables, atomic per call)", "process scheduling (baton threads, tape-chosen)"]}
 RULE = ("run = 2..4 simulated processes each doing 1..3 rounds of lock -> critical section -> unlock on one path, interleaved at every intercepted call; "
-        "optional initial stale link, optional death of a holder inside its critical section; non-trivial = at least two processes contended (an EEXIST was seen) "
+        "optional initial stale link, optional death of a holder inside its critical section, optional fork of a holder whose child calls unlock() on the inherited lock object; non-trivial = at least two processes contended (an EEXIST was seen) "
         "and the tape switched processes between two calls of one lock()")
 ASSUMPTIONS = ["symlink() is atomic create-or-EEXIST; readlink/remove/kill are atomic individually", "pids are not reused during a run"]
 
@@ -43,6 +44,7 @@ class World:
         self.eexist = 0
         self.broke_stale = 0
         self.esrch = {}        # pid -> the dead pid its latest kill(0) reported ESRCH for
+        self.foreign_unlock = None  # (pid, owner): an unlock() removed a live owner's link
 
     def pid(self):
         t = self.sched.me()
@@ -88,6 +90,9 @@ class World:
                 self.sim.event(me, "rmlink", "stale", owner)
         else:
             self.sim.event(me, "rmlink", "own" if owner == me else "other:%d" % owner)
+            if owner != me and owner in self.alive:
+                # unlock() by a process that does not own the link (e.g. a forked child cleaning up an inherited lock object)
+                self.foreign_unlock = (me, owner)
         del self.links[filename]
 
     def kill(self, pid, sig):
@@ -116,7 +121,8 @@ def run(sim):
     stale_initial = sim.draw_bool(0.5, "stale_initial")
     deaths = sim.draw_bool(0.3, "deaths")
     rounds = sim.draw_int(1, 3, "rounds")
-    sim.config = {"nproc": nproc, "stale_initial": stale_initial, "deaths": deaths, "rounds": rounds}
+    forks = sim.draw_bool(0.25, "forks")
+    sim.config = {"nproc": nproc, "stale_initial": stale_initial, "deaths": deaths, "rounds": rounds, "forks": forks}
     sched = T.Scheduler(sim)
     w = World(sim, sched)
     saved = {n: getattr(lockfile, n) for n in ("symlink", "readlink", "rmlink", "kill", "os")}
@@ -128,6 +134,19 @@ def run(sim):
     def clause(name):
         # violations that follow a breaker removing a live holder's link are the listed known finding
         return ("stale-break-race", name) if w.race else (name, "")
+
+    nchild = [0]
+
+    def child(cpid, inherited):
+        try:
+            inherited.unlock()
+            outcome = "returned"
+        except (ValueError, OSError) as e:
+            outcome = type(e).__name__
+        sim.event(cpid, "CHILD-UNLOCK", outcome)
+        c, wit = clause("non-holder-unlock-removed-live-link")
+        sim.check(c, w.foreign_unlock is None, wit or "forked-child", lambda: "unlock() in process %d removed the link of live holder %d (unlock %s)" % (w.foreign_unlock + (outcome,)))
+        w.alive.discard(cpid)
 
     def process(pid, nrounds):
         lk = lockfile.FilesystemLock(NAME)
@@ -158,6 +177,19 @@ def run(sim):
                 sched.point("critical-section")
                 c, wit = clause("mutual-exclusion")
                 sim.check(c, len(holders) == 1, wit or "two-holders", lambda: "processes %r are all between lock()==True and unlock()" % (holders,))
+            if forks and sim.draw_bool(0.4, "fork"):
+                # the holder forks; the child inherits a copy of the lock object (locked flag set) and releases its inherited
+                # resources: its unlock() is a non-holder's unlock and must leave the parent's lock alone
+                nchild[0] += 1
+                cpid = 200 + nchild[0]
+                w.alive.add(cpid)
+                w.pid_of["p%d" % cpid] = cpid
+                sim.fault("fork_child_unlocks_inherited_lock")
+                sched.spawn("p%d" % cpid, child, cpid, copy.copy(lk))
+                for _ in range(sim.draw_int(0, 2, "cs2")):
+                    sched.point("critical-section")
+                    c, wit = clause("mutual-exclusion")
+                    sim.check(c, len(holders) == 1, wit or "two-holders", lambda: "processes %r are all between lock()==True and unlock()" % (holders,))
             if deaths and sim.draw_bool(0.3, "die"):
                 sim.fault("process_death_holding_lock")
                 sim.event(pid, "DIES")
